@@ -215,6 +215,8 @@ func (g *JGen) Deep(depth int) string {
 }
 
 // Mutate damages a text: insert / delete / flip / truncate / splice.
+var notJSONSpace = []string{"\v", "\f", "\x85", "\xa0", "\xc2\x85", "\xc2\xa0", "\xe2\x80\xa8", "\xe2\x80\x89", "\xe3\x80\x80", "\xef\xbb\xbf", "\x00", "\x1c", "\x1f", "\b"}
+
 func (g *JGen) Mutate(s string) string {
 	g.Stats["malformed"]++
 	b := []byte(s)
@@ -241,6 +243,20 @@ func (g *JGen) Mutate(s string) string {
 			}
 		case 4: // append another value or separator
 			b = append(b, []byte(g.r.Pick([]string{",", ",0", "]", "}", " 1", ",[", ":", "\"", "x"}))...)
+		}
+		if g.r.Chance(12) {
+			// white space that is NOT JSON white space (Unicode spaces, other ASCII controls) around the text or inside it
+			ws := g.r.Pick(notJSONSpace)
+			switch g.r.Intn(3) {
+			case 0:
+				b = append([]byte(ws), b...)
+			case 1:
+				b = append(b, ws...)
+			default:
+				i := g.r.Intn(len(b) + 1)
+				b = append(b[:i], append([]byte(ws), b[i:]...)...)
+			}
+			g.Stats["malformed.foreign-space"]++
 		}
 	}
 	return string(b)
